@@ -240,6 +240,9 @@ def run_source(source, rep, record=True):
             if witnesses and len(rep.samples) < rep.max_samples:
                 rep.sample(dict(topology=spec.topology, subnets=spec.subnets, sensitive=list(spec.sensitive), bound=bound, hops=hops,
                                 witness=[repr(a) for a in witnesses[0][1]]))
+    except walk.SourceRejected as e:
+        if record:
+            rep.count(f"source-rejected({e.owner})")
     except Failure as f:
         failed.add(f.bucket)
         if record:
